@@ -53,6 +53,15 @@ class Clause:
         self.props = props
 
 
+class Structural:
+    """callee-side only: a Python-level fact about the executed path (e.g. which processes it spawned)."""
+
+    def __init__(self, name, fn, props=()):
+        self.name = name
+        self.fn = fn       # fn(pc) -> z3 Bool / bool
+        self.props = props
+
+
 class ExcCase:
     """allowed exceptional exit.  when(pc) -> clause over the ENTRY state (Forall/Exists allowed);
     clauses(pc) -> post clauses; unchanged=True adds 'every field and heap map equals its entry value'."""
@@ -93,7 +102,8 @@ class PostCtx:
 class FnContract:
     def __init__(self, name, params, pre=None, post=None, excs=(), modifies=(), heap_modifies=(),
                  result_kind=("none",), uses_inv=True, keeps_inv=True, normal_requires=None, props=(),
-                 inv_skip=(), pure=False, is_init=False, allocates=False, advances_time=False):
+                 inv_skip=(), pure=False, is_init=False, allocates=False, advances_time=False, is_generator=False,
+                 entry_assume=None):
         self.name = name
         self.params = params            # list of (pname, kind, default or None)
         self.pre = pre or (lambda st, args: [])
@@ -111,6 +121,8 @@ class FnContract:
         self.is_init = is_init
         self.allocates = allocates
         self.advances_time = advances_time
+        self.is_generator = is_generator
+        self.entry_assume = entry_assume   # generator: rely facts at process start (clauses over the entry state)
 
 
 # ---------------------------------------------------------------------------
@@ -216,6 +228,8 @@ def _build_new_state(con, pc, clauses_fn_result, lineno):
             pc.res = res
         elif isinstance(it, Clause):
             plain.append(it)
+        elif isinstance(it, Structural):
+            pass
         else:
             raise TypeError(it)
     for it in plain:
@@ -284,6 +298,9 @@ def verify_function(lib, cls, fname, fnode, con, timeout_ms=10000, want_models=T
                 entry.assume(cl)
         for nm, cl in con.pre(entry, args):
             entry.assume(cl)
+        if con.entry_assume is not None:
+            for nm, cl in con.entry_assume(entry, args):
+                entry.assume(cl)
         old = entry.fork()      # frozen copy of the entry state for post clauses
         ctx = Ctx(cls, fname, lib, loop_invs=lib.loop_invs(cls, fname), yields=lib.yield_spec(cls, fname, con, old, args),
                   module=profile.get("file"))
@@ -345,6 +362,7 @@ def _judge(lib, cls, con, ctx, old, args, o, k, fnode):
         resv = o.value if o.kind == "return" else NONE
         if isinstance(resv, FieldRef):
             resv = st.f[resv.name]
+        old = st.ghost.get("resume_old") or old     # generators: post is relative to the last resumption
         pc = PostCtx("callee", old, st, args, resv, lib, cls)
         if con.normal_requires is not None:
             ctx.oblige("exit%d.normal-requires" % k, st, [con.normal_requires(pc)], "post", fnode.lineno, con.props)
@@ -371,6 +389,7 @@ def _judge(lib, cls, con, ctx, old, args, o, k, fnode):
             ctx.oblige("exit%d.no-%s@L%d" % (k, et, o.value.lineno), st, [z3.BoolVal(False)], "noexc",
                        o.value.lineno, con.props + ("C20",))
             return
+        old = st.ghost.get("resume_old") or old
         pc = PostCtx("callee", old, st, args, None, lib, cls)
         # the exit must be covered by (at least) one case; we check the disjunction of case conditions,
         # then each case's clauses under its condition.
@@ -428,6 +447,11 @@ def _post_item(ctx, pc, it, prefix, lineno, con):
     elif isinstance(it, Clause):
         cl = it.clause(pc) if callable(it.clause) else it.clause
         ctx.oblige("%s.post.%s" % (prefix, it.name), st, [cl], "post", lineno, it.props or con.props)
+    elif isinstance(it, Structural):
+        r = it.fn(pc)
+        if isinstance(r, bool):
+            r = z3.BoolVal(r)
+        ctx.oblige("%s.post.%s" % (prefix, it.name), st, [r], "post", lineno, it.props or con.props)
     else:
         raise TypeError(it)
 
